@@ -438,3 +438,29 @@ def shared(col: Collector, rule: str, fns, select=None, why: str = ""):
 
 def construct_tag(o) -> str:
     return o.construct.split("#", 1)[1] if "#" in o.construct else o.construct
+
+
+
+def init_attribute_table(repo: Repo, cls: str) -> dict:
+    """attribute name -> value expression for everything the constructor of `cls` sets on the new instance, read off the *normal
+    form* of __init__ (helpers dissolved): plain `self.x = v`, `object.__setattr__(self, "x", v)` / `setattr`, and a table of
+    initial attributes `{"x": v, ..}` applied in a loop (however the table reaches the loop: a local, keywords collected by a helper)."""
+    try:
+        fn = sctx(repo, cls, "__init__").cx.fn
+    except (AnalysisError, NotImplementedError, KeyError):
+        fn = repo.method(cls, "__init__")
+    out = {}
+    for n in ast.walk(fn):
+        if isinstance(n, (ast.Assign, ast.AnnAssign)):
+            for t in (n.targets if isinstance(n, ast.Assign) else [n.target]):
+                a = A.self_attr(t)
+                if a and n.value is not None:
+                    out.setdefault(a, n.value)
+        if isinstance(n, ast.Call) and A.call_name(n) in ("object.__setattr__", "setattr") and len(n.args) == 3 and A.dotted(n.args[0]) == "self" \
+                and isinstance(n.args[1], ast.Constant) and isinstance(n.args[1].value, str):
+            out.setdefault(n.args[1].value, n.args[2])
+        if isinstance(n, ast.Dict) and len(n.keys) >= 2 and all(isinstance(k, ast.Constant) and isinstance(k.value, str) and k.value.isidentifier()
+                                                                  for k in n.keys):
+            for k, v in zip(n.keys, n.values):
+                out.setdefault(k.value, v)
+    return out
